@@ -101,6 +101,13 @@ pub open spec fn one_locked_tx(o: World, n: World, op: OpG) -> bool {
             && res_id(r->Ok_0) == last(*final(w)).result, // [C08:helper-returns-what-its-own-transaction-read]
         final(w).unlocked_writes == old(w).unlocked_writes, // [C08:helper-never-writes-outside-the-single-writer-lock]
 //@end
+//@extract src/tx/single_writer/keyspace.rs :: SingleWriterTxKeyspace :: take world props=C08
+//@contract
+    requires old(w).txs.len() > 0 ==> last(*old(w)).finished,
+    ensures r is Ok ==> one_locked_tx(*old(w), *final(w), OpG::FetchUpdate) // [C08:helper-is-one-write-transaction-under-the-single-writer-lock]
+            && res_id(r->Ok_0) == last(*final(w)).result, // [C08:helper-returns-what-its-own-transaction-read]
+        final(w).unlocked_writes == old(w).unlocked_writes, // [C08:helper-never-writes-outside-the-single-writer-lock]
+//@end
 //@extract src/tx/single_writer/keyspace.rs :: SingleWriterTxKeyspace :: update_fetch world props=C08
 //@contract
     requires old(w).txs.len() > 0 ==> last(*old(w)).finished,
